@@ -1261,12 +1261,101 @@ static json spaceEvent(const Shipped &sh, const Node &nd)
     return ev;
 }
 
+static void unflatten(const Node &nd, ob::State *s, const std::vector<double> &v)
+{
+    std::size_t at = 0;
+    walk(nd, s, [&](const Node &l, ob::State *ls) {
+        if (l.k == "Disc")
+        {
+            ls->as<ob::DiscreteStateSpace::StateType>()->value = (int)v.at(at++);
+            return;
+        }
+        int c;
+        double *p = slots(l, ls, c);
+        for (int i = 0; i < c; ++i)
+            p[i] = v.at(at++);
+    });
+}
+
 struct Probe
 {
     std::string cls;
     // generation recipe for a, b, c
     std::function<void(ob::State *, ob::State *, ob::State *)> make;
+    bool once{false};   // a fixed (canned) input: recorded once
+    int s{-1}, u{-1};   // fixed re-parameterisation point (64ths) for canned interpolation probes
 };
+
+// fixed inputs that reproduce a known phenomenon deterministically, whatever the seed
+static void canned(const std::string &name, const Node &nd, bool interp, std::vector<Probe> &v)
+{
+    auto fixed = [&nd](std::vector<double> a, std::vector<double> b, std::vector<double> c) {
+        return [&nd, a, b, c](ob::State *x, ob::State *y, ob::State *z) {
+            unflatten(nd, x, a);
+            unflatten(nd, y, b);
+            unflatten(nd, z, c);
+        };
+    };
+    const double h = PI / 2;
+    if (!interp)
+    {
+        if (name == "Mobius" || name == "WrapperMobius")
+            // the seam rule applies as soon as |du| > pi although the way round the strip is shorter
+            v.push_back({"canned-seam", fixed({-1.6, 1.0}, {0.0, 1.0}, {1.6, 1.0}), true});
+        if (name == "KleinBottle")
+            v.push_back({"canned-seam", fixed({0.84378344565990548, -1.14993555996039}, {2.7003753826406718, 0.78897392301132907},
+                                              {2.2824003755718278, 0.63740066016610042}), true});
+        if (name == "Sphere" || name == "SphereR3")
+        {
+            // float haversine next to an antipode: two states 1e-9 apart, distances to a third differ by ~7e-4 x radius
+            v.push_back({"canned-antipode", fixed({h, 0.97379158626554196}, {-h, 2.1678010673242509},
+                                                  {-h + 1e-9, 2.1678010673242509 + 1e-9}), true});
+            // two representations of the north pole, and the two poles
+            v.push_back({"canned-pole", fixed({0.3, 0.0}, {2.0, 0.0}, {0.0, PI}), true});
+            // antipodes on the equator: the largest distance, radius x pi
+            v.push_back({"canned-equator", fixed({0.0, h}, {-PI, h}, {h, h}), true});
+        }
+        if (name == "Dubins" || name == "DubinsSym")
+        {
+            v.push_back({"canned-far", fixed({-3, -3, 0}, {4, -4, -PI}, {-3, 0, -PI}), true});
+            // same position, headings 2e-9 apart: below the internal DUBINS_EPS
+            v.push_back({"canned-heading", fixed({4, 4, 0.43893147294306978}, {4, 4, 0.43893147494306983}, {0, 0, 0}), true});
+        }
+    }
+    else
+    {
+        if (name == "KleinBottle")
+        {
+            Probe p{"canned-seam", fixed({2.4770818027160972, h}, {0.66451085087369588, -h}, {0, 0}), true};
+            p.s = 16;
+            p.u = 25;
+            v.push_back(p);
+        }
+        if (name == "ReedsShepp")
+        {
+            Probe p{"canned-pivot", fixed({-2, -2, -3.1405926535897932}, {-2, -2, 3.1415926535897927}, {0, 0, 0}), true};
+            p.s = 7;
+            p.u = 32;
+            v.push_back(p);
+        }
+        if (name == "DubinsSym")
+        {
+            Probe p{"canned-flip", fixed({1.7114724637048697, 0.22075845570208052, -2.748893571891069},
+                                         {-1.7114724637048697, -0.22075845570208052, 0.39269908169872414}, {0, 0, 0}), true};
+            p.s = 32;
+            p.u = 32;
+            v.push_back(p);
+        }
+        if (name == "SO2")
+        {
+            // D2: from pi/8 to -pi at t = 1 (k = 64 is always probed)
+            Probe p{"canned-plus-pi", fixed({PI / 8}, {-PI}, {0}), true};
+            p.s = 0;
+            p.u = 64;
+            v.push_back(p);
+        }
+    }
+}
 
 static std::vector<Probe> probes(const Node &nd, vt::Rng &r, bool interp)
 {
@@ -1369,9 +1458,10 @@ static int record(const std::string &out, long n, const std::string &filter, boo
         while (cn->k == "Wrap")
             cn = &cn->sub[0];
         auto pr = probes(nd, rng, interp);
+        canned(sh.name, nd, interp, pr);
         for (auto &p : pr)
         {
-            for (long it = 0; it < n; ++it)
+            for (long it = 0; it < (p.once ? 1 : n); ++it)
             {
                 Scoped a(nd), b(nd), c(nd);
                 p.make(a(), b(), c());
@@ -1443,6 +1533,11 @@ static int record(const std::string &out, long n, const std::string &filter, boo
                     }
                     int ksn = rng.below(3) == 0 ? (rng.below(2) ? 0 : 32) : rng.below(65);
                     int kun = rng.below(3) == 0 ? (rng.below(2) ? 64 : 32) : rng.below(65);
+                    if (p.s >= 0)
+                    {
+                        ksn = p.s;
+                        kun = p.u;
+                    }
                     double s = ksn / 64.0, u = kun / 64.0;
                     Scoped ps(nd), pr2(nd), pq(nd);
                     nd.sp->interpolate(a(), b(), s, ps());
